@@ -132,6 +132,10 @@ pub enum Ty {
     I32,
     I64,
     Str,
+    I16,
+    Bool,
+    /// `char(5)`: stored and compared as a string
+    Char,
 }
 
 impl Ty {
@@ -140,6 +144,9 @@ impl Ty {
             Ty::I32 => "int",
             Ty::I64 => "bigint",
             Ty::Str => "varchar",
+            Ty::I16 => "smallint",
+            Ty::Bool => "boolean",
+            Ty::Char => "char(5)",
         }
     }
     pub fn tag(&self) -> &'static str {
@@ -147,12 +154,18 @@ impl Ty {
             Ty::I32 => "i32",
             Ty::I64 => "i64",
             Ty::Str => "str",
+            Ty::I16 => "i16",
+            Ty::Bool => "bool",
+            Ty::Char => "char",
         }
     }
     pub fn of_tag(s: &str) -> Ty {
         match s {
             "i32" => Ty::I32,
             "i64" => Ty::I64,
+            "i16" => Ty::I16,
+            "bool" => Ty::Bool,
+            "char" => Ty::Char,
             _ => Ty::Str,
         }
     }
@@ -236,6 +249,7 @@ pub fn colname(i: usize) -> String {
 pub fn sql_lit(v: &DataValue) -> String {
     match v {
         DataValue::Null => "null".into(),
+        DataValue::Int16(x) => x.to_string(),
         DataValue::Int32(x) => x.to_string(),
         DataValue::Int64(x) => x.to_string(),
         DataValue::String(s) => format!("'{s}'"),
@@ -251,6 +265,7 @@ pub fn parse_val(t: &str) -> DataValue {
     let (tag, rest) = t.split_once(':').unwrap();
     match tag {
         "b" => DataValue::Bool(rest == "true"),
+        "i16" => DataValue::Int16(rest.parse().unwrap()),
         "i32" => DataValue::Int32(rest.parse().unwrap()),
         "i64" => DataValue::Int64(rest.parse().unwrap()),
         "s" => DataValue::String(String::from_utf8(unhex(rest).unwrap()).unwrap().into()),
